@@ -185,7 +185,7 @@ def v_split(c, case):
         return
     import numpy as np
 
-    da, r = _concrete_dataset(c, sorted_dirs=(c.rng.random() < 0.5))
+    da, r = _concrete_dataset(c, nf=c.rng.randint(4, 6), sorted_dirs=(c.rng.random() < 0.5))
     f = da["freq"].values
     if case == "invalid":
         raised = False
@@ -231,7 +231,7 @@ def v_ptm5(c):
         return
     import numpy as np
 
-    da, r = _concrete_dataset(c, sorted_dirs=True)
+    da, r = _concrete_dataset(c, nf=c.rng.randint(4, 6), sorted_dirs=True)
     f = da["freq"].values
     ongrid = c.rng.random() < 0.4
     fcut = float(f[2]) if ongrid else float(0.5 * (f[1] + f[2]))
